@@ -295,6 +295,14 @@ def binop(self, op, a, b):
         return simp(x - y * _floordiv(x, y))
     if isinstance(op, ast.LShift) and isinstance(b, int):
         return simp(x * (1 << b))
+    if isinstance(op, ast.LShift):
+        # symbolic shift amount: exact as a case split when the amount provably lies in 0..64
+        if feasible(self.pc + [zbool(self.guard()), z3.Or(y < 0, y > 64)]):
+            raise Unsupported("left shift by a symbolic amount that is not provably within 0..64")
+        p2 = z3.IntVal(1 << 64)
+        for k in range(63, -1, -1):
+            p2 = z3.If(y == k, z3.IntVal(1 << k), p2)
+        return simp(x * p2)
     raise Unsupported(f"binop {type(op).__name__} on symbolic ints")
 
 
